@@ -153,10 +153,10 @@ Lemma emits_length rt w base s : length (emits rt w base s) <= length s + 2.
 Proof. induction s as [|[id st own a|] r IH]; simpl; [lia | lia | destruct base; simpl; lia]. Qed.
 Lemma worker_puts_owner rt w base s : Forall (fun q => qowner q = w) (worker_puts rt w base s).
 Proof.
-  unfold worker_puts. constructor; [reflexivity|]. apply Forall_app. split; [apply emits_owner | repeat constructor].
+  unfold worker_puts. apply Forall_app. split; [apply emits_owner | repeat constructor].
 Qed.
 Lemma worker_puts_length rt w base s : length (worker_puts rt w base s) <= length s + 4.
-Proof. unfold worker_puts. simpl. rewrite app_length. simpl. pose proof (emits_length rt w base s). lia. Qed.
+Proof. unfold worker_puts. rewrite app_length. simpl. pose proof (emits_length rt w base s). lia. Qed.
 
 Lemma fw_all w l : Forall (fun q => qowner q = w) l -> fw w l = l.
 Proof.
@@ -173,12 +173,11 @@ Lemma stop_is_last rt w base s a b : a ++ b = worker_puts rt w base s -> In (QSt
 Proof.
   unfold worker_puts. intros E Hin.
   assert (Hs : stopsq (a ++ b) = [w]).
-  { rewrite E. change (QStart w :: emits rt w base s ++ [QStop w]) with ([QStart w] ++ emits rt w base s ++ [QStop w]).
-    rewrite !stopsq_app, emits_nostop. reflexivity. }
+  { rewrite E. rewrite !stopsq_app, emits_nostop. reflexivity. }
   destruct b as [|q b]; [reflexivity|]. exfalso.
   assert (Hlast : exists b', q :: b = b' ++ [QStop w]).
   { assert (L : last (a ++ q :: b) (QStart 0) = QStop w).
-    { rewrite E. rewrite app_comm_cons. apply last_last. }
+    { rewrite E. apply last_last. }
     destruct (exists_last (l := q :: b)) as (b' & x & Eb); [discriminate|]. exists b'. rewrite Eb.
     rewrite Eb, app_assoc, last_last in L. rewrite L. reflexivity. }
   destruct Hlast as [b' Eb]. rewrite Eb, !stopsq_app in Hs. simpl in Hs.
@@ -255,6 +254,17 @@ Proof.
   induction l as [|a l IH]; simpl; [discriminate|]. destruct (p a) eqn:E; simpl.
   - intro H. destruct (IH H) as (w & x & Hw & Hx). exists (S w), x. auto.
   - intros _. exists 0, a. auto.
+Qed.
+
+Lemma unreaped_lt k l : forallb (fun w => w <? k) (unreaped_of k l) = true.
+Proof.
+  apply forallb_forall. intros w Hw. unfold unreaped_of in Hw. apply filter_In in Hw as [Hw _].
+  apply in_seq in Hw. apply Nat.ltb_lt. lia.
+Qed.
+
+Lemma forallb_memb_self l : forallb (fun w => memb w l) l = true.
+Proof.
+  apply forallb_forall. intros w Hw. unfold memb. apply existsb_exists. exists w. split; [exact Hw | apply Nat.eqb_refl].
 Qed.
 
 Section Stream.
@@ -703,7 +713,7 @@ Section Stream.
         destruct todo; [|discriminate].
         destruct (Hwk u _ En) as (s & Hs & E). rewrite app_nil_r in E.
         assert (Hq : In (QStop u) (fw u (gotten (s_log c) ++ s_queue c))).
-        { rewrite Hfifo, E. unfold worker_puts. right. apply in_or_app. right. left. reflexivity. }
+        { rewrite Hfifo, E. unfold worker_puts. apply in_or_app. right. left. reflexivity. }
         apply filter_In in Hq as [Hq _]. apply in_app_or in Hq as [Hq|Hq].
         * apply stopsq_memb in Hq. rewrite Hq in Hnot. discriminate.
         * destruct (s_queue c); [contradiction | discriminate].
@@ -772,7 +782,7 @@ Proof.
 Qed.
 
 Lemma ev_of_worker_puts rt w base s : ev_of (worker_puts rt w base s) = ev_of (emits rt w base s).
-Proof. unfold worker_puts. simpl. rewrite ev_of_app. simpl. apply app_nil_r. Qed.
+Proof. unfold worker_puts. rewrite ev_of_app. simpl. apply app_nil_r. Qed.
 
 Theorem stream_meets_spec : forall i, spec_okb (IStream i) (model (IStream i)) = true.
 Proof.
@@ -794,7 +804,7 @@ Proof.
     replace (Bool.eqb (s_raised c) (s_raised c)) with true by (destruct (s_raised c); reflexivity).
     rewrite Hns, Hst.
     destruct (s_raised c) eqn:Er; simpl.
-    + rewrite firstn_all. apply (list_eqb_spec _ Nat.eqb_eq). reflexivity.
+    + fold (unreaped_of K (joins (s_log c))). rewrite unreaped_lt, forallb_memb_self. reflexivity.
     + destruct (Hnr eq_refl) as [Hl _]. rewrite Hl. reflexivity.
   - (* delivery, per worker *)
     cbn [o_trace o_raised]. fold n. fold K.
